@@ -413,7 +413,7 @@ pub fn execute(sc: &Scenario, env: &Env) -> (Outcome, RunStats) {
                     !inside(&n) && n != base_s
                 } else {
                     // outside the sandbox altogether: any mutation, or a read of a path the request named
-                    (s.kind.is_mutating() && !n.starts_with("/dev/")) || n == "/etc/hostname"
+                    (s.kind.is_mutating() && !n.starts_with("/dev/")) || n == "/etc/hostname" || wsenv::is_system_listing(&n)
                 };
                 // bash itself (spawned with a cwd inside the root) opens system files; only this process is observed
                 if bad {
